@@ -14,12 +14,15 @@
    CRC-8), every subframe, the zero padding and the CRC-16, and returns the decoded channels and the
    remaining bytes (C01_decoder_reads_frame; frame bodies go through the word sink, whose export carries
    the same bits: C01_word_sink_bytes_carry_the_bits).
-   PARTIAL: the stream container (marker, STREAMINFO, frame sequence and numbering, interleaving) and the
-   instantiation of the frame theorem's hypotheses for encode_frame's output are checked on every run
-   by executing the extracted decoder on the implementation's bytes (DEC oracle), not proved. *)
+   (e) frame end to end (C01_frame_end_to_end): for every estimator, configuration with max parameter <= 14,
+   1..8 channels, width 8/12/16/20/24, block of 1..32767 samples in range: the bytes of the frame
+   encode_frame returns, followed by anything, are decoded by the independent decoder to exactly the
+   channels of the block (all header codes, channel assignment, CRCs and padding included).
+   PARTIAL: the stream container (marker, STREAMINFO, frame sequence and numbering, interleaving) is checked
+   on every run by executing the extracted decoder on the implementation's bytes (DEC oracle), not proved. *)
 From FV Require Import Model.Base Model.Sink Model.Codes Model.Rice Model.Predict Model.Component Model.Encoder
   Model.Flac Model.Ctor Proofs.Lossless Proofs.BitRead Proofs.BitWrite Proofs.CtorP Proofs.ParseResidual
-  Proofs.ParseSubframe Proofs.DecodeSubframe Proofs.EncoderVerifies Proofs.CountBits Proofs.DecodeFrame.
+  Proofs.ParseSubframe Proofs.DecodeSubframe Proofs.EncoderVerifies Proofs.CountBits Proofs.DecodeFrame Proofs.EncodeFrameE2E.
 Local Open Scope Z_scope.
 
 (* whatever the estimators answer, the subframe the encoder returns decodes to the block it was
@@ -171,3 +174,22 @@ Theorem C01_word_sink_bytes_carry_the_bits : forall (ops : list op) (bytes : lis
   bytes_bits bytes = ops_bitlist 0 ops ++ repeat false (N.to_nat (Proofs.OpsLen.pad8 (Proofs.OpsLen.ops_len 0 ops))).
 Proof. exact pack_u64_bits. Qed.
 Print Assumptions C01_word_sink_bytes_carry_the_bits.
+
+(* ---- one frame, end to end ---- *)
+(* block_hyps: every signal the encoder may code for the block (each channel, mid, side) has n samples in range
+   of its width, and - when the LPC branch is enabled - the estimator's answer for it is a verified parameter set
+   of order 1..n whose residuals are representable (lpc_fits) *)
+Theorem C01_frame_end_to_end :
+  forall (ent : N -> N -> N -> N) (qlpc : N -> N -> qparams) cfg rate channels bps fi number block f si bytes rest n,
+    encode_frame ent qlpc cfg rate channels bps fi number block = Ok f ->
+    cfg_max_parameter cfg <= 14 -> In bps [8; 12; 16; 20; 24] -> rate < 2 ^ 32 -> 1 <= channels <= 8 -> number < 2 ^ 36 ->
+    (1 <= n)%nat -> N.of_nat n <= Generated.c_MAX_BLOCK_SIZE ->
+    block_hyps qlpc cfg fi channels bps block n ->
+    Forall (bounded (2 ^ 24)) (chans channels block) ->
+    forallb (fun c => forallb (in_range bps) c) (chans channels block) = true ->
+    i_rate si = rate -> i_bps si = bps ->
+    Forall (fun x => x < 256) rest ->
+    frame_bytes f = Ok bytes ->
+    exists ctag, read_frame si (bytes ++ rest) = Some (mkFH (N.of_nat n) ctag number (rate mod 2 ^ 32) bps, chans channels block, rest).
+Proof. exact frame_end_to_end. Qed.
+Print Assumptions C01_frame_end_to_end.
